@@ -281,7 +281,7 @@ def oracle_bracket(sim, rr, out):
         if len(m.R) > 1:
             out.probe("base-exception-plus-other")
         from .program import Abort
-        want = {"kbi": KeyboardInterrupt, "sysexit": SystemExit, "abort": Abort}
+        want = {"kbi": KeyboardInterrupt, "sysexit": SystemExit, "abort": Abort, "genexit": GeneratorExit}
         if rr.raised is None:
             out.violate(
                 "baseexception-not-propagated",
